@@ -352,6 +352,11 @@ func c13Execute(t *testing.T, bases [2]*c12Base, sc c13Script) *c13Run {
 
 type c13Iv struct{ From, To time.Time }
 
+// c13Margin: the documented safety margin between "refresh considered failed" and "lock
+// considered stale" (1.5 refresh intervals). Deliberately not derived from
+// lockerInst.refreshabilityTimeout: a change of that value must not re-classify violations.
+const c13Margin = defaultRefreshInterval * 3 / 2
+
 const (
 	c13KnownSlowAcq = "lock-not-refreshed-after-slow-acquisition"
 	c13KnownBlocked = "refresh-goroutine-blocked-monitor-cannot-cancel"
@@ -467,7 +472,7 @@ func c13Judge(run *c13Run, st map[string]int64) (viol [][2]string) {
 			}
 		}
 		switch {
-		case acqAge > staleLockTimeout-lockerInst.refreshabilityTimeout:
+		case acqAge > c13Margin:
 			key = c13KnownSlowAcq
 		case busy:
 			key = c13KnownBlocked
